@@ -3258,7 +3258,9 @@ fn get_discovered_reader_incompatible_qos_policy_list(
     if &writer_qos.latency_budget > discovered_reader_data.latency_budget() {
         incompatible_qos_policy_list.push(LATENCYBUDGET_QOS_POLICY_ID);
     }
-    if &writer_qos.liveliness < discovered_reader_data.liveliness() {
+    if writer_qos.liveliness.kind < discovered_reader_data.liveliness().kind
+        || writer_qos.liveliness.lease_duration > discovered_reader_data.liveliness().lease_duration
+    {
         incompatible_qos_policy_list.push(LIVELINESS_QOS_POLICY_ID);
     }
     if writer_qos.reliability.kind < discovered_reader_data.reliability().kind {
@@ -3317,7 +3319,10 @@ fn get_discovered_writer_incompatible_qos_policy_list(
     if &data_reader.qos.latency_budget < publication_builtin_topic_data.latency_budget() {
         incompatible_qos_policy_list.push(LATENCYBUDGET_QOS_POLICY_ID);
     }
-    if &data_reader.qos.liveliness > publication_builtin_topic_data.liveliness() {
+    if data_reader.qos.liveliness.kind > publication_builtin_topic_data.liveliness().kind
+        || data_reader.qos.liveliness.lease_duration
+            < publication_builtin_topic_data.liveliness().lease_duration
+    {
         incompatible_qos_policy_list.push(LIVELINESS_QOS_POLICY_ID);
     }
     if data_reader.qos.reliability.kind > publication_builtin_topic_data.reliability().kind {
